@@ -45,6 +45,29 @@ def make_specs(ctx, grammars, nconf, L, events=False, extra_cfg=None):
     return specs
 
 
+def add_arrows(ctx, specs):
+    """Nested '-> Node' parts over random, properly nested sub-ranges of right-hand sides (markers excluded)."""
+    rnd = random.Random(ctx.seed * 104729 + 5)
+    for s in specs:
+        rules = []
+        for r in s["rules"]:
+            r = dict(r)
+            n = len(r["rhs"])
+            arrows = []
+            if n >= 1 and all(x >= 0 for x in r["rhs"]) and rnd.random() < 0.6:
+                for _ in range(rnd.randint(1, 3)):
+                    i = rnd.randint(1, n)
+                    j = rnd.randint(i, n)
+                    if [i, j] in arrows or (i == 1 and j == n and n > 1 and rnd.random() < 0.5):
+                        continue
+                    if all(not (a[0] < i <= a[1] < j or i < a[0] <= j < a[1]) for a in arrows):
+                        arrows.append([i, j])
+            r["arrows"] = arrows
+            rules.append(r)
+        s["rules"] = rules
+    return specs
+
+
 def rtgen(ctx, specs, name):
     f = ctx.path("specs-%s.ndjson" % name)
     vlib.write_ndjson(f, specs)
